@@ -136,9 +136,12 @@ def check_sheet(text, shown, objs, fields, V, P):
                 if lvl > 0:
                     P('indented-task')
             elif f in ('nosuch', 'children', 'wbs', 'all_parents', 'all_children', 'all_successors', 'PREDECESSORS', 'to_dict'):
-                # not a sheet column and not an attribute stored on the task: an unknown field
-                if cell.strip() != '':
-                    V('unknown-field-not-empty', f'task {t.id}: {cell!r}')
+                # not a sheet column and not an attribute stored on the task: an unknown field. The statement fixes the layout for
+                # "any choice of fields including unknown ones", not what such a cell shows (empty today; a renderer that treats
+                # column names case-insensitively shows the predecessors under PREDECESSORS): the layout clauses above apply, and
+                # the cell must not be an object dump (a bound method, a list of task sheets)
+                if 'object at 0x' in cell or '<bound method' in cell or '\x1b' in cell:
+                    V('unknown-field-dumps-object', f'task {t.id}: {cell!r}')
                 P('unknown-field')
             elif f == 'predecessors':
                 if body != expected_link_cell(t, list(t.predecessors)):
